@@ -380,6 +380,7 @@ namespace pika::ensure_started_detail {
                         // continuation. This has to be done while holding
                         // the lock since predecessor signalling completion
                         // may otherwise not see the continuation.
+                        PIKA_VERIF_POINT("ss.add.store", this, 0, 0);
                         continuation.emplace([this, &receiver]() mutable {
                             pika::detail::visit(
                                 stopped_error_value_visitor<Receiver>{receiver}, std::move(v));
